@@ -357,7 +357,9 @@ def _worker(args):
         # step-level record for the timed models: (actor, kind, msg, pre phase, pre armed, post phase, post armed, touched, delay, settings)
         _install_arm_recorder()
         tsteps = {}
+        ssteps = {}
         pre_of = {}
+        spre_of = {}
         setting_names = {c: sorted({v[8:] for (_h, _m, _src, v) in side.get("delays", {}).get(c, []) if isinstance(v, str) and v.startswith("setting:")}) for c in side["actors"]}
 
         def on_step(actor, hname, when):
@@ -375,6 +377,10 @@ def _worker(args):
                         b0 = hname.split("@")[0]
                         pj = (pj[0], a["msgs"].index(b0) if b0 in a["msgs"] else -99, pj[2])
                     pre_of[real] = pj
+                    try:
+                        spre_of[real] = _project(r.sys, real, side) if model in obs else None
+                    except Exception:  # noqa: BLE001
+                        spre_of[real] = None
                     return
                 pre = pre_of.pop(real, None)
                 if pre is None or not r.world.alive(real):
@@ -412,15 +418,28 @@ def _worker(args):
             key = (model, kind, mid, pre[0], pre[1], post[0], post[1], touched, delay, sets)
             if key not in tsteps and len(tsteps) < 4000:
                 tsteps[key] = (hname, r.step_no)
+            # safety view: observable outputs and published state before / after
+            spre = spre_of.pop(real, None)
+            if spre is not None and not (model == "Swim" and dac_faulty) and r.world.parked_ctx_of(actor) is None:
+                try:
+                    spost = _project(r.sys, real, side)
+                except Exception:  # noqa: BLE001
+                    spost = None
+                if spost is not None:
+                    sp_armed = pre[1] if kind == "fire" else (spre[2] if spre[2] is not None else -1)
+                    skey = (model, kind, mid, spre[0], sp_armed, tuple(spre[1]), spost[0], spost[2] if spost[2] is not None else -1, tuple(spost[1]))
+                    if skey not in ssteps and len(ssteps) < 6000:
+                        ssteps[skey] = (hname, r.step_no)
 
         r.world.on_step = on_step
         r.run(scn["actions"])
         asks = sorted({(a, b, t is not None) for (a, b, t, h) in r.world.ask_log if a != "<main>"})
         intervals = sorted({(e[2][0], e[2][1], float(e[2][2])) for e in r.world.log if e[1] == "timer_start"})
         return {"i": i, "scn": scn, "findings": r.findings, "mismatch": mism, "nobs": len(seen_obs), "handlers": sorted(handlers), "events": len(r.world.log), "asks": asks, "error": None, "intervals": intervals,
-                "leaves": sorted({(n, l) for (n, l, _, _) in seen_obs}), "tsteps": [list(k) + list(v) for k, v in tsteps.items()]}
+                "leaves": sorted({(n, l) for (n, l, _, _) in seen_obs}), "tsteps": [list(k) + list(v) for k, v in tsteps.items()],
+                "ssteps": [[k[0], k[1], k[2], k[3], k[4], list(k[5]), k[6], k[7], list(k[8])] + list(v) for k, v in ssteps.items()]}
     except BaseException:  # noqa: BLE001
-        return {"i": i, "scn": corpus_scn, "findings": [], "mismatch": [], "nobs": 0, "handlers": [], "events": 0, "asks": [], "error": traceback.format_exc()[-1500:], "leaves": [], "intervals": [], "tsteps": []}
+        return {"i": i, "scn": corpus_scn, "findings": [], "mismatch": [], "nobs": 0, "handlers": [], "events": 0, "asks": [], "error": traceback.format_exc()[-1500:], "leaves": [], "intervals": [], "tsteps": [], "ssteps": []}
 
 
 def _init_worker():
@@ -438,6 +457,61 @@ def corpus_scenarios():
                 out.append((os.path.basename(p), scn))
         except Exception:  # noqa: BLE001
             pass
+    return out
+
+
+def _worker_side():
+    return json.load(open(os.path.join(GEN, "actors.json")))
+
+
+def safety_step_correspondence(res, side):
+    """every distinct real handler execution (phase, armed call, own outputs and published state before; message; the same after)
+    must be a step of the SAFETY-view model from a certified state (knowledge variables existentially quantified): `stepdrv`"""
+    distinct = {}
+    for r in res:
+        for t in r.get("ssteps", []):
+            k = (t[0], t[1], t[2], t[3], t[4], tuple(t[5]), t[6], t[7], tuple(t[8]))
+            if k not in distinct:
+                distinct[k] = (t[9], t[10], r["scn"])
+    keys = sorted(distinct, key=lambda k: tuple(str(x) for x in k))
+    out = {"distinct_steps": len(keys), "bad": [], "by_kind": {}, "driver_error": None}
+    lines, idx = [], []
+    csv = lambda xs: ",".join(str(x) for x in xs) if xs else "-"  # noqa: E731
+    for k in keys:
+        model, kind, mid, pl, pa, pv, ql, qa, qv = k
+        out["by_kind"][kind] = out["by_kind"].get(kind, 0) + 1
+        if kind in ("stale", "other"):
+            if (pl, pa, pv) != (ql, qa, qv):
+                hname, step, scn = distinct[k]
+                out["bad"].append({"step": list(k), "handler": hname, "reason": "a stale delayed call / an unmodelled message changed the phase, an output or the published state", "scenario": scn, "at_step": step})
+            continue
+        if mid < 0 or pa == -99 or qa == -99 or -99 in pv or -99 in qv:
+            hname, step, scn = distinct[k]
+            out["bad"].append({"step": list(k), "handler": hname, "reason": "message, armed call or published state unknown to the model", "scenario": scn, "at_step": step})
+            continue
+        vars_ = side["actors"][model]["vars"]
+        obs_idx = [i for i, v in enumerate(vars_) if v.startswith("dev:") or v == "pub"]
+        lines.append(f"{model} {kind} {mid} {csv(obs_idx)} {pl} {pa} {csv(pv)} {ql} {qa} {csv(qv)}")
+        idx.append(k)
+    if lines:
+        try:
+            exe = os.path.join(VERIF, "lean", ".lake", "build", "bin", "stepdrv")
+            with FileLock("lake"):
+                pb = subprocess.run(["lake", "build", "stepdrv"], cwd=os.path.join(VERIF, "lean"), capture_output=True, text=True, timeout=3000)
+            if pb.returncode != 0:
+                raise RuntimeError((pb.stdout + pb.stderr)[-800:])
+            p = subprocess.run([exe], input="\n".join(lines) + "\n", capture_output=True, text=True, timeout=1800)
+            answers = p.stdout.split("\n")
+            if p.returncode != 0 or len(answers) < len(lines):
+                raise RuntimeError(f"rc={p.returncode} {p.stderr[-500:]}")
+            for k, ans in zip(idx, answers):
+                if ans != "ok":
+                    hname, step, scn = distinct[k]
+                    out["bad"].append({"step": list(k), "handler": hname, "reason": ans, "scenario": scn, "at_step": step})
+        except Exception as e:  # noqa: BLE001
+            out["driver_error"] = repr(e)[:600]
+    out["n_bad"] = len(out["bad"])
+    out["bad"] = out["bad"][:12]
     return out
 
 
@@ -524,6 +598,7 @@ def exploration(chk, n=None, length=40):
                     agg["mismatches"].append({"mismatch": m, "scenario": r["scn"]})
         agg["n_mismatch_scenarios"] = sum(1 for r in res if r["mismatch"])
         agg["timed"] = timed_step_correspondence(res)
+        agg["safety_steps"] = safety_step_correspondence(res, _worker_side())
         with open(path, "w") as fh:
             json.dump(agg, fh, default=list)
         return json.load(open(path))
@@ -637,6 +712,15 @@ def run_actor_property(chk, module, theorems, monitor_pids=None, controllers=Non
                 td.get("distinct_steps", 0), td.get("n_bad", 0),
                 distribution={"by_kind": td.get("by_kind"), "unknown_duration": td.get("unknown_duration")},
                 detail=[{k: b[k] for k in ("step", "handler", "reason", "at_step")} for b in td.get("bad", [])[:4]] or None,
+            )
+        sd = res.get("safety_steps") or {}
+        if sd:
+            if sd.get("driver_error"):
+                chk.obligation("safety-model step driver (lake exe stepdrv) ran", False, sd["driver_error"])
+            chk.correspondence(
+                "safety-view models vs the REAL controllers, step level: every distinct handler execution (phase, armed call, own outputs, published state before; message; the same after) must be a step of the regenerated model from a certified state (knowledge variables existentially quantified); stale delayed calls and unmodelled messages must change nothing",
+                sd.get("distinct_steps", 0), sd.get("n_bad", 0), distribution={"by_kind": sd.get("by_kind")},
+                detail=[{k: b[k] for k in ("step", "handler", "reason", "at_step")} for b in sd.get("bad", [])[:4]] or None,
             )
         chk.extra["handlers_executed"] = res["handlers"]
         chk.extra["phases_visited"] = ["%s.%s" % tuple(x) for x in res["leaves"]] if res["leaves"] and isinstance(res["leaves"][0][1], str) else res["leaves"]
